@@ -68,6 +68,27 @@ HX int h_race(int kind, int n, int T, int iters) {
     return bad.load();
     H_END
 }
+// the FIRST solve of a freshly built shared plan from T threads at once (lazily created members would race here and nowhere else): per trial a new plan,
+// every thread solves once; references come from a plan that has been solved before.  Returns the number of wrong results.
+HX int h_race_first(int kind, int n, int T, int trials) {
+    H_TRY
+    h_mk(kind, n);
+    std::vector<std::vector<double>> xs(T, std::vector<double>(2 * n + 4)), ref(T, std::vector<double>(2 * n + 8));
+    for (int t = 0; t < T; ++t) { for (int i = 0; i < 2 * n + 4; ++i) xs[t][i] = std::sin(0.37 * i * (t + 1)) + 0.01 * t; use(kind, n, xs[t].data(), ref[t].data()); }
+    std::atomic<int> bad{0};
+    for (int tr = 0; tr < trials; ++tr) {
+        { std::thread mkt([&]() { h_mk(kind, n); }); mkt.join(); }      // fresh, never solved: built in a short-lived thread so that its per-thread plan cache cannot hand back an implementation object that has been solved before
+        std::atomic<int> go{0}; std::vector<std::thread> th;
+        for (int t = 0; t < T; ++t) th.emplace_back([&, t]() {
+            std::vector<double> y(2 * n + 8);
+            go++; while (go.load() < T) {}
+            use(kind, n, xs[t].data(), y.data()); if (std::memcmp(y.data(), ref[t].data(), sizeof(double) * n) != 0) bad++;
+        });
+        for (auto& t : th) t.join();
+    }
+    return bad.load();
+    H_END
+}
 // seeding / drawing in another thread must not change this thread's sequence: returns 1 if the sequence drawn after rng(seed) is the same with and without a concurrent thread that seeds and draws
 HX int h_rng_threads(int seed, int n) {
     H_TRY
